@@ -1,1 +1,686 @@
-fn main() { eprintln!("not built yet"); std::process::exit(2); }
+//! C17 harness: formatter corpus records for FormatRel.tla, Render.tla replay, layout mutants.
+//!
+//!   vfmt corpus  <list-file> <width>... -o <records.ndjson> -d <diag.ndjson> -t <tables.json>
+//!   vfmt render  <rows-file>
+//!   vfmt mutants <list-file> <out-dir> <seed> <per-file>
+//!   vfmt one     <file> <width>
+use std::collections::{HashMap, HashSet};
+use std::io::Write;
+use std::panic::{AssertUnwindSafe, catch_unwind};
+use std::sync::{Arc, Mutex};
+
+use dora_format::doc::{Doc, DocBuilder};
+use dora_parser::ast::{SyntaxElement, SyntaxNode, SyntaxNodeBase};
+use dora_parser::{Parser, TokenKind, lex};
+use rand::rngs::StdRng;
+use rand::{Rng, SeedableRng};
+use serde_json::{Value, json};
+
+static LAST_PANIC: Mutex<String> = Mutex::new(String::new());
+
+fn install_hook() {
+    std::panic::set_hook(Box::new(|info| {
+        let msg = if let Some(s) = info.payload().downcast_ref::<&str>() {
+            s.to_string()
+        } else if let Some(s) = info.payload().downcast_ref::<String>() {
+            s.clone()
+        } else {
+            "<non-string panic>".to_string()
+        };
+        let loc = info
+            .location()
+            .map(|l| format!("{}:{}", l.file(), l.line()))
+            .unwrap_or_default();
+        *LAST_PANIC.lock().unwrap() = format!("{} @ {}", msg, loc);
+    }));
+}
+
+fn guarded<T>(f: impl FnOnce() -> T) -> Result<T, String> {
+    match catch_unwind(AssertUnwindSafe(f)) {
+        Ok(v) => Ok(v),
+        Err(_) => Err(LAST_PANIC.lock().unwrap().clone()),
+    }
+}
+
+// ------------------------------------------------------------------------------------------------
+// interning
+
+struct Interner {
+    map: HashMap<String, u32>,
+    list: Vec<String>,
+}
+
+impl Interner {
+    fn new() -> Self {
+        Interner { map: HashMap::new(), list: Vec::new() }
+    }
+    /// ids are 1-based
+    fn id(&mut self, s: &str) -> u32 {
+        if let Some(&i) = self.map.get(s) {
+            return i;
+        }
+        self.list.push(s.to_string());
+        let i = self.list.len() as u32;
+        self.map.insert(s.to_string(), i);
+        i
+    }
+}
+
+const OR_CLOSE: &str = "OR_CLOSE";
+
+/// The token table starts with the kinds FormatRel.tla knows by number:
+/// 1 = `,`   2 = `)`   3 = `]`   4 = `}`   5 = `|` that closes a lambda parameter list
+fn token_interner() -> Interner {
+    let mut t = Interner::new();
+    assert_eq!(t.id("COMMA\u{0},"), 1);
+    assert_eq!(t.id("R_PAREN\u{0})"), 2);
+    assert_eq!(t.id("R_BRACKET\u{0}]"), 3);
+    assert_eq!(t.id("R_BRACE\u{0}}"), 4);
+    assert_eq!(t.id(&format!("{}\u{0}|", OR_CLOSE)), 5);
+    t
+}
+
+// ------------------------------------------------------------------------------------------------
+// lexing / tree facts
+
+struct Lexed {
+    /// code tokens: (kind name, text, start offset)
+    code: Vec<(String, String, u32)>,
+    /// comments, trailing whitespace removed
+    comments: Vec<String>,
+    lex_errors: usize,
+}
+
+fn lex_text(text: &str) -> Lexed {
+    let r = lex(text);
+    let mut code = Vec::new();
+    let mut comments = Vec::new();
+    let n = r.starts.len();
+    for i in 0..n {
+        let k = r.tokens[i];
+        let s = r.starts[i] as usize;
+        let e = if i + 1 < n { r.starts[i + 1] as usize } else { text.len() };
+        match k {
+            TokenKind::LINE_COMMENT | TokenKind::MULTILINE_COMMENT => {
+                comments.push(text[s..e].trim_end().to_string())
+            }
+            _ if k.is_trivia() => {}
+            _ => code.push((format!("{:?}", k), text[s..e].to_string(), s as u32)),
+        }
+    }
+    Lexed { code, comments, lex_errors: r.errors.len() }
+}
+
+#[derive(Default)]
+struct TreeFacts {
+    /// start offsets of `|` tokens that close a lambda parameter list
+    closing_or: HashSet<u32>,
+    /// byte ranges of USE items and MODIFIER_LIST nodes
+    use_ranges: Vec<(u32, u32)>,
+    modifier_ranges: Vec<(u32, u32)>,
+    /// comment start offset -> (kind of the parent node)
+    comment_parent: HashMap<u32, String>,
+}
+
+fn walk(node: &SyntaxNode, facts: &mut TreeFacts) {
+    let kind = node.syntax_kind();
+    let span = node.full_span();
+    if kind == TokenKind::USE {
+        facts.use_ranges.push((span.start(), span.end()));
+    }
+    if kind == TokenKind::MODIFIER_LIST {
+        facts.modifier_ranges.push((span.start(), span.end()));
+    }
+    let mut ors: Vec<u32> = Vec::new();
+    let mut first_code: Option<TokenKind> = None;
+    for el in node.children_with_tokens() {
+        match el {
+            SyntaxElement::Token(t) => {
+                let k = t.syntax_kind();
+                if k == TokenKind::LINE_COMMENT || k == TokenKind::MULTILINE_COMMENT {
+                    facts.comment_parent.insert(t.offset().value(), format!("{:?}", kind));
+                }
+                if !k.is_trivia() {
+                    if first_code.is_none() {
+                        first_code = Some(k);
+                    }
+                    if k == TokenKind::OR {
+                        ors.push(t.offset().value());
+                    }
+                }
+            }
+            SyntaxElement::Node(n) => {
+                if first_code.is_none() {
+                    first_code = Some(n.syntax_kind());
+                }
+                walk(&n, facts);
+            }
+        }
+    }
+    if kind == TokenKind::PARAM_LIST && first_code == Some(TokenKind::OR) && ors.len() >= 2 {
+        facts.closing_or.insert(*ors.last().unwrap());
+    }
+}
+
+/// parse: Ok((number of errors, facts)) or Err(panic message)
+fn parse_facts(text: &str) -> Result<(usize, TreeFacts), String> {
+    let content = Arc::new(text.to_string());
+    guarded(move || {
+        let (file, errors) = Parser::from_shared_string(content).parse();
+        let mut facts = TreeFacts::default();
+        if errors.is_empty() {
+            walk(&file.root(), &mut facts);
+        }
+        (errors.len(), facts)
+    })
+}
+
+fn token_ids(lx: &Lexed, facts: Option<&TreeFacts>, toks: &mut Interner) -> Vec<u32> {
+    lx.code
+        .iter()
+        .map(|(k, t, off)| {
+            let closing = k == "OR" && facts.map(|f| f.closing_or.contains(off)).unwrap_or(false);
+            let kind = if closing { OR_CLOSE } else { k.as_str() };
+            toks.id(&format!("{}\u{0}{}", kind, t))
+        })
+        .collect()
+}
+
+fn index_ranges(lx: &Lexed, ranges: &[(u32, u32)]) -> Vec<[usize; 2]> {
+    // byte ranges -> 0-based [from, to) ranges of code-token indices
+    let mut out = Vec::new();
+    for &(s, e) in ranges {
+        let a = lx.code.partition_point(|c| c.2 < s);
+        let b = lx.code.partition_point(|c| c.2 < e);
+        if b > a {
+            out.push([a, b]);
+        }
+    }
+    out
+}
+
+fn format_pipeline(text: &str, width: u32) -> Result<Result<String, usize>, String> {
+    // the public pieces of format_source_with_line_length without its self-check
+    let content = Arc::new(text.to_string());
+    guarded(move || {
+        let (file, errors) = Parser::from_shared_string(content).parse();
+        if !errors.is_empty() {
+            return Err(errors.len());
+        }
+        let doc = dora_format::doc::format(file.root());
+        Ok(dora_format::render::render_doc_with_line_length(&doc, width))
+    })
+}
+
+fn format_api(text: &str, width: u32) -> Result<Result<String, usize>, String> {
+    let t = text.to_string();
+    guarded(move || match dora_format::format_source_with_line_length(&t, width) {
+        Ok(s) => Ok((*s).clone()),
+        Err(e) => Err(e.len()),
+    })
+}
+
+fn sorted(mut v: Vec<u32>) -> Vec<u32> {
+    v.sort();
+    v
+}
+
+struct Tables {
+    toks: Interner,
+    comments: Interner,
+    lines: Interner,
+}
+
+struct RunOut {
+    record: Value,
+    diag: Value,
+    out_text: Option<String>,
+    out2_text: Option<String>,
+}
+
+/// One formatter run on `text` (already known to parse without errors; `in_facts` are its tree facts).
+fn run_one(id: usize, path: &str, text: &str, lx_in: &Lexed, in_facts: &TreeFacts, width: u32, tb: &mut Tables) -> RunOut {
+    let api = format_api(text, width);
+    let pipe = format_pipeline(text, width);
+    let (api_state, api_msg) = match &api {
+        Ok(Ok(_)) => (0, String::new()),
+        Err(m) => (1, m.clone()),
+        Ok(Err(n)) => (2, format!("{} parse errors reported for the input", n)),
+    };
+    let mut pipe_msg = String::new();
+    let out: Option<String> = match (&api, &pipe) {
+        (Ok(Ok(s)), _) => Some(s.clone()),
+        (_, Ok(Ok(s))) => Some(s.clone()),
+        (_, Err(m)) => {
+            pipe_msg = m.clone();
+            None
+        }
+        _ => None,
+    };
+    let api_differs = matches!((&api, &pipe), (Ok(Ok(a)), Ok(Ok(b))) if a != b);
+
+    let i_ids = token_ids(lx_in, Some(in_facts), &mut tb.toks);
+    let ci = sorted(lx_in.comments.iter().map(|c| tb.comments.id(c)).collect());
+    let mut rec = json!({"id": id, "w": width, "api": api_state, "has": if out.is_some() { 1 } else { 0 },
+                         "I": i_ids, "ci": ci, "O": [], "co": [], "pe": 0, "f2": 3, "ol": [], "o2l": []});
+    let mut diag = json!({"id": id, "file": path, "w": width, "api": api_state, "api_msg": api_msg, "pipe_msg": pipe_msg,
+                          "api_differs": api_differs,
+                          "iu": index_ranges(lx_in, &in_facts.use_ranges), "im": index_ranges(lx_in, &in_facts.modifier_ranges)});
+    let mut out2_text = None;
+    if let Some(o) = &out {
+        let lx_out = lex_text(o);
+        let pf = parse_facts(o);
+        let (pe, of, pmsg): (i64, Option<TreeFacts>, String) = match pf {
+            Ok((n, f)) => (n as i64 + lx_out.lex_errors as i64 * 0, Some(f), String::new()),
+            Err(m) => (-1, None, m),
+        };
+        rec["O"] = json!(token_ids(&lx_out, of.as_ref(), &mut tb.toks));
+        rec["co"] = json!(sorted(lx_out.comments.iter().map(|c| tb.comments.id(c)).collect()));
+        rec["pe"] = json!(pe);
+        rec["ol"] = json!(o.split('\n').map(|l| tb.lines.id(l)).collect::<Vec<_>>());
+        diag["parse_msg"] = json!(pmsg);
+        if let Some(f) = &of {
+            diag["ou"] = json!(index_ranges(&lx_out, &f.use_ranges));
+            diag["om"] = json!(index_ranges(&lx_out, &f.modifier_ranges));
+        }
+        if pe == 0 {
+            // second formatting of the output, same width
+            match format_api(o, width) {
+                Ok(Ok(o2)) => {
+                    rec["f2"] = json!(0);
+                    rec["o2l"] = json!(o2.split('\n').map(|l| tb.lines.id(l)).collect::<Vec<_>>());
+                    out2_text = Some(o2);
+                }
+                Err(m) => {
+                    rec["f2"] = json!(1);
+                    diag["f2_msg"] = json!(m);
+                }
+                Ok(Err(n)) => {
+                    rec["f2"] = json!(2);
+                    diag["f2_msg"] = json!(format!("{} parse errors reported for the formatted text", n));
+                }
+            }
+        }
+    }
+    RunOut { record: rec, diag, out_text: out, out2_text }
+}
+
+fn read_list(path: &str) -> Vec<String> {
+    std::fs::read_to_string(path)
+        .expect("list file")
+        .lines()
+        .map(|l| l.trim().to_string())
+        .filter(|l| !l.is_empty())
+        .collect()
+}
+
+fn opt(args: &mut Vec<String>, flag: &str) -> Option<String> {
+    if let Some(p) = args.iter().position(|a| a == flag) {
+        let v = args.get(p + 1).cloned();
+        args.drain(p..(p + 2).min(args.len()));
+        v
+    } else {
+        None
+    }
+}
+
+fn cmd_corpus(mut args: Vec<String>) {
+    let out_path = opt(&mut args, "-o").expect("-o records");
+    let diag_path = opt(&mut args, "-d").expect("-d diag");
+    let tab_path = opt(&mut args, "-t").expect("-t tables");
+    let files = read_list(&args[0]);
+    let widths: Vec<u32> = args[1..].iter().map(|w| w.parse().expect("width")).collect();
+    let mut rec_f = std::io::BufWriter::new(std::fs::File::create(&out_path).unwrap());
+    let mut diag_f = std::io::BufWriter::new(std::fs::File::create(&diag_path).unwrap());
+    let mut tb = Tables { toks: token_interner(), comments: Interner::new(), lines: Interner::new() };
+    let (mut unreadable, mut syntax_err, mut in_panic, mut nrec, mut ntok) = (0usize, 0usize, 0usize, 0usize, 0usize);
+    let mut skipped: Vec<Value> = Vec::new();
+    for (fi, path) in files.iter().enumerate() {
+        let text = match std::fs::read_to_string(path) {
+            Ok(t) => t,
+            Err(_) => {
+                unreadable += 1;
+                skipped.push(json!({"file": path, "why": "unreadable"}));
+                continue;
+            }
+        };
+        let facts = match parse_facts(&text) {
+            Ok((0, f)) => f,
+            Ok((n, _)) => {
+                syntax_err += 1;
+                skipped.push(json!({"file": path, "why": "syntax errors", "n": n}));
+                continue;
+            }
+            Err(m) => {
+                in_panic += 1;
+                skipped.push(json!({"file": path, "why": "parser panic on the input", "msg": m}));
+                continue;
+            }
+        };
+        let lx = lex_text(&text);
+        for &w in &widths {
+            nrec += 1;
+            let r = run_one(nrec, path, &text, &lx, &facts, w, &mut tb);
+            ntok += lx.code.len();
+            let mut d = r.diag;
+            d["fi"] = json!(fi);
+            writeln!(rec_f, "{}", r.record).unwrap();
+            writeln!(diag_f, "{}", d).unwrap();
+        }
+    }
+    rec_f.flush().unwrap();
+    diag_f.flush().unwrap();
+    let toks: Vec<Value> = tb
+        .toks
+        .list
+        .iter()
+        .map(|s| {
+            let mut it = s.splitn(2, '\u{0}');
+            json!([it.next().unwrap(), it.next().unwrap_or("")])
+        })
+        .collect();
+    std::fs::write(&tab_path, serde_json::to_string(&json!({"tokens": toks, "comments": tb.comments.list})).unwrap()).unwrap();
+    println!();
+    println!(
+        "{}",
+        json!({"kind": "summary", "files": files.len(), "unreadable": unreadable, "input_syntax_errors": syntax_err,
+               "input_parser_panic": in_panic, "records": nrec, "input_tokens": ntok, "skipped": skipped,
+               "distinct_tokens": tb.toks.list.len(), "distinct_comments": tb.comments.list.len()})
+    );
+}
+
+// ------------------------------------------------------------------------------------------------
+// Render.tla replay
+
+const TEXTS: [&str; 4] = ["a", "bb", "c ", ""];
+
+fn text_doc(s: &str) -> Doc {
+    let mut b = DocBuilder::new();
+    b.text(s);
+    b.finish()
+}
+
+fn build_doc(j: &Value) -> Doc {
+    let kind = j[0].as_u64().unwrap();
+    let arg = j[1].as_u64().unwrap();
+    let kids = j[2].as_array().unwrap();
+    match kind {
+        1 => text_doc(TEXTS[arg as usize - 1]),
+        2 => Doc::SoftLine,
+        3 => Doc::SoftBreak,
+        4 => Doc::HardLine,
+        5 => Doc::IfBreak { doc: Box::new(build_doc(&kids[0])) },
+        6 => Doc::Group { doc: Box::new(build_doc(&kids[0])) },
+        7 => Doc::Nest { indent: arg as u32, doc: Box::new(build_doc(&kids[0])) },
+        8 => Doc::Concat { children: kids.iter().map(build_doc).collect() },
+        _ => panic!("unknown doc kind {}", kind),
+    }
+}
+
+fn cmd_render(args: Vec<String>) {
+    let text = std::fs::read_to_string(&args[0]).expect("rows file");
+    let (mut rows, mut mism, mut panics) = (0usize, 0usize, 0usize);
+    let mut kinds_seen = [0usize; 9];
+    for line in text.lines() {
+        if !line.starts_with("\"{") {
+            continue;
+        }
+        let inner: String = match serde_json::from_str(line) {
+            Ok(s) => s,
+            Err(_) => continue,
+        };
+        let row: Value = serde_json::from_str(&inner).expect("row json");
+        rows += 1;
+        let w = row["w"].as_u64().unwrap() as u32;
+        let expected: String = row["o"].as_array().unwrap().iter().map(|c| c.as_u64().unwrap() as u8 as char).collect();
+        kinds_seen[row["d"][0].as_u64().unwrap() as usize] += 1;
+        let d = row["d"].clone();
+        let actual = guarded(move || {
+            let doc = build_doc(&d);
+            dora_format::render::render_doc_with_line_length(&doc, w)
+        });
+        match actual {
+            Ok(a) if a == expected => {}
+            Ok(a) => {
+                mism += 1;
+                if mism <= 200 {
+                    println!(
+                        "{}",
+                        json!({"kind": "mismatch", "d": row["d"], "w": w, "expected": expected,
+                               "actual": a, "o": a.bytes().map(|b| b as u32).collect::<Vec<_>>()})
+                    );
+                }
+            }
+            Err(m) => {
+                panics += 1;
+                if panics <= 20 {
+                    println!("{}", json!({"kind": "panic", "d": row["d"], "w": w, "msg": m}));
+                }
+            }
+        }
+    }
+    println!("{}", json!({"kind": "summary", "rows": rows, "mismatch": mism, "panics": panics, "top_kinds": kinds_seen[1..].to_vec()}));
+}
+
+// ------------------------------------------------------------------------------------------------
+// layout mutants
+
+struct Pieces {
+    /// code token texts and the trivia text ("gap") before each of them; tail = trivia after the last token
+    toks: Vec<String>,
+    gaps: Vec<String>,
+    tail: String,
+}
+
+fn pieces(text: &str) -> Pieces {
+    let r = lex(text);
+    let n = r.starts.len();
+    let (mut toks, mut gaps) = (Vec::new(), Vec::new());
+    let mut gap = String::new();
+    for i in 0..n {
+        let s = r.starts[i] as usize;
+        let e = if i + 1 < n { r.starts[i + 1] as usize } else { text.len() };
+        if r.tokens[i].is_trivia() {
+            gap.push_str(&text[s..e]);
+        } else {
+            toks.push(text[s..e].to_string());
+            gaps.push(std::mem::take(&mut gap));
+        }
+    }
+    Pieces { toks, gaps, tail: gap }
+}
+
+fn assemble(p: &Pieces) -> String {
+    let mut s = String::new();
+    for (g, t) in p.gaps.iter().zip(p.toks.iter()) {
+        s.push_str(g);
+        s.push_str(t);
+    }
+    s.push_str(&p.tail);
+    s
+}
+
+fn has_comment(gap: &str) -> bool {
+    gap.contains("//") || gap.contains("/*")
+}
+
+fn random_ws(rng: &mut StdRng) -> String {
+    match rng.random_range(0..8) {
+        0 => String::new(),
+        1 => " ".into(),
+        2 => "  ".into(),
+        3 => "\n".into(),
+        4 => "\n\n".into(),
+        5 => " \n   ".into(),
+        6 => "\t".into(),
+        _ => "\n\n\n  ".into(),
+    }
+}
+
+fn code_seq(text: &str) -> Vec<(String, String)> {
+    lex_text(text).code.into_iter().map(|(k, t, _)| (k, t)).collect()
+}
+
+fn cmd_mutants(args: Vec<String>) {
+    let files = read_list(&args[0]);
+    let outdir = &args[1];
+    let seed: u64 = args[2].parse().unwrap();
+    let per_file: usize = args[3].parse().unwrap();
+    std::fs::create_dir_all(outdir).unwrap();
+    let mut rng = StdRng::seed_from_u64(seed);
+    let mut manifest = std::io::BufWriter::new(std::fs::File::create(format!("{}/manifest.ndjson", outdir)).unwrap());
+    let mut list = std::io::BufWriter::new(std::fs::File::create(format!("{}/list.txt", outdir)).unwrap());
+    let kinds = ["respace", "join", "split", "comment-block", "comment-line"];
+    let mut counts: HashMap<String, usize> = HashMap::new();
+    let (mut made, mut rejected_lex, mut rejected_parse, mut origins) = (0usize, 0usize, 0usize, 0usize);
+    for path in &files {
+        let text = match std::fs::read_to_string(path) {
+            Ok(t) => t,
+            Err(_) => continue,
+        };
+        match parse_facts(&text) {
+            Ok((0, _)) => {}
+            _ => continue,
+        }
+        let base = pieces(&text);
+        if base.toks.len() < 2 || assemble(&base) != text {
+            continue;
+        }
+        origins += 1;
+        let orig_code = code_seq(&text);
+        let orig_comments = lex_text(&text).comments.len();
+        for k in 0..per_file {
+            let kind = kinds[(k + rng.random_range(0..kinds.len())) % kinds.len()];
+            let mut p = Pieces { toks: base.toks.clone(), gaps: base.gaps.clone(), tail: base.tail.clone() };
+            let n = p.toks.len();
+            let mut where_ = json!(null);
+            let mut expect_comments = orig_comments;
+            match kind {
+                "respace" => {
+                    for g in 0..n {
+                        if !has_comment(&p.gaps[g]) && rng.random_range(0..100) < 30 {
+                            p.gaps[g] = random_ws(&mut rng);
+                        }
+                    }
+                }
+                "join" => {
+                    // join lines: gaps without comments collapse to one space (all, or a random half)
+                    let all = rng.random_range(0..2) == 0;
+                    for g in 1..n {
+                        if !has_comment(&p.gaps[g]) && p.gaps[g].contains('\n') && (all || rng.random_range(0..2) == 0) {
+                            p.gaps[g] = " ".into();
+                        }
+                    }
+                }
+                "split" => {
+                    let pct = [10, 40, 100][rng.random_range(0..3)];
+                    for g in 1..n {
+                        if !has_comment(&p.gaps[g]) && rng.random_range(0..100) < pct {
+                            p.gaps[g] = format!("{}\n", p.gaps[g]);
+                        }
+                    }
+                }
+                _ => {
+                    let g = rng.random_range(0..=n);
+                    let c = if kind == "comment-block" { format!("/* c{} */", k) } else { format!("// c{}\n", k) };
+                    // keep the surrounding layout, put the comment right before the code token (or at the end)
+                    if g == n {
+                        p.tail = format!("{} {}", p.tail, c);
+                    } else {
+                        p.gaps[g] = format!("{} {} ", p.gaps[g], c);
+                    }
+                    where_ = json!(g);
+                    expect_comments += 1;
+                }
+            }
+            let m = assemble(&p);
+            if m == text {
+                continue;
+            }
+            let lx = lex_text(&m);
+            let code: Vec<(String, String)> = lx.code.iter().map(|(k, t, _)| (k.clone(), t.clone())).collect();
+            if code != orig_code || lx.comments.len() != expect_comments {
+                rejected_lex += 1;
+                continue;
+            }
+            let facts = match parse_facts(&m) {
+                Ok((0, f)) => f,
+                _ => {
+                    rejected_parse += 1;
+                    continue;
+                }
+            };
+            made += 1;
+            *counts.entry(kind.to_string()).or_default() += 1;
+            let mpath = format!("{}/m{:06}.dora", outdir, made);
+            std::fs::write(&mpath, &m).unwrap();
+            let mut ctx = json!(null);
+            if let Some(g) = where_.as_u64() {
+                // syntactic context of the inserted comment in the mutant's own tree
+                let needle = if kind == "comment-block" { format!("/* c{} */", k) } else { format!("// c{}", k) };
+                let mut off = None;
+                let r = lex(&m);
+                for i in 0..r.starts.len() {
+                    let s = r.starts[i] as usize;
+                    let e = if i + 1 < r.starts.len() { r.starts[i + 1] as usize } else { m.len() };
+                    if (r.tokens[i] == TokenKind::LINE_COMMENT || r.tokens[i] == TokenKind::MULTILINE_COMMENT) && m[s..e].trim_end() == needle {
+                        off = Some(s as u32);
+                    }
+                }
+                let parent = off.and_then(|o| facts.comment_parent.get(&o).cloned()).unwrap_or("?".into());
+                let g = g as usize;
+                let prev = if g > 0 { orig_code[g - 1].0.clone() } else { "BOF".into() };
+                let next = if g < n { orig_code[g].0.clone() } else { "EOF".into() };
+                ctx = json!({"parent": parent, "prev": prev, "next": next, "comment": needle});
+            }
+            writeln!(manifest, "{}", json!({"file": mpath, "origin": path, "kind": kind, "gap": where_, "ctx": ctx})).unwrap();
+            writeln!(list, "{}", mpath).unwrap();
+        }
+    }
+    manifest.flush().unwrap();
+    list.flush().unwrap();
+    println!(
+        "{}",
+        json!({"kind": "summary", "origins": origins, "mutants": made, "by_kind": counts,
+               "rejected_token_sequence_changed": rejected_lex, "rejected_not_parsable": rejected_parse})
+    );
+}
+
+fn cmd_one(args: Vec<String>) {
+    let text = std::fs::read_to_string(&args[0]).expect("file");
+    let w: u32 = args.get(1).map(|w| w.parse().unwrap()).unwrap_or(90);
+    let mut tb = Tables { toks: token_interner(), comments: Interner::new(), lines: Interner::new() };
+    match parse_facts(&text) {
+        Ok((0, facts)) => {
+            let lx = lex_text(&text);
+            let r = run_one(1, &args[0], &text, &lx, &facts, w, &mut tb);
+            println!("== DIAG\n{}", r.diag);
+            println!("== OUTPUT\n{}", r.out_text.unwrap_or("<none>".into()));
+            if let Some(o2) = r.out2_text {
+                println!("== SECOND OUTPUT\n{}", o2);
+            }
+        }
+        Ok((n, _)) => println!("input has {} syntax errors: outside the property", n),
+        Err(m) => println!("parser panics on the input: {}", m),
+    }
+}
+
+fn main() {
+    install_hook();
+    let mut args: Vec<String> = std::env::args().skip(1).collect();
+    if args.is_empty() {
+        eprintln!("usage: vfmt corpus|render|mutants|one ...");
+        std::process::exit(2);
+    }
+    let cmd = args.remove(0);
+    match cmd.as_str() {
+        "corpus" => cmd_corpus(args),
+        "render" => cmd_render(args),
+        "mutants" => cmd_mutants(args),
+        "one" => cmd_one(args),
+        _ => {
+            eprintln!("unknown sub-command {}", cmd);
+            std::process::exit(2);
+        }
+    }
+}
